@@ -12,7 +12,7 @@ UNARY_FUNCS = ["abs", "negative", "positive", "square", "sign", "floor", "ceil",
                "bitwise_invert", "logical_not"]
 LAYOUT = ["ndx.reshape(a, [-1])", "ndx.reshape(a, [-1], copy=True)", "ndx.flip(a)", "ndx.roll(a, 1)", "ndx.expand_dims(a, 0)", "ndx.permute_dims(a, list(range(a.ndim))[::-1])",
           "ndx.broadcast_to(a, nda.shape(a))", "ndx.squeeze(ndx.expand_dims(a, 0), 0)", "a[...]", "a[::1]", "ndx.asarray(a, copy=True)", "a.copy()",
-          "ndx.astype(a, a.dtype)", "ndx.astype(a, ndx.float64)", "ndx.concat([a, a])", "ndx.stack([a, a])", "ndx.take(a, ndx.asarray(np.array([0])), axis=0)",
+          "ndx.astype(a, a.dtype)", "ndx.astype(a, ndx.float64)", "ndx.astype(a, ndx.nfloat64)", "ndx.astype(a, ndx.nint64)", "ndx.concat([a, a])", "ndx.stack([a, a])", "ndx.take(a, ndx.asarray(np.array([0])), axis=0)",
           "ndx.where(a == a, a, a)", "ndx.sort(a)", "ndx.cumulative_sum(a, axis=0)", "ndx.sum(a, axis=0, keepdims=True)", "ndx.max(a, axis=0, keepdims=True)",
           "ndx.broadcast_arrays(a, a)[0]", "ndx.unique_values(a)", "ndx.clip(a, min=0, max=2)", "ndx.tril(ndx.reshape(a, [1, -1]))", "a + 0", "a * 1", "ndx.add(a, a)",
           "ndx.logical_and(a > 0, True)", "ndx.logical_or(a > 0, False)",
@@ -146,19 +146,7 @@ def run(ctx):
     family.evaluate(ctx, cases, want=("oracle",))
     # writes that mix data-holding targets with placeholder values / indices: the written array and everything
     # derived from it afterwards must see the write (exported model run == eager evaluation)
-    mixed = []
-    for i in range(60 if ctx.tier == "quick" else 600):
-        d = rnd.choice(["int64", "float64", "int32", "nint64"])
-        sh = ops.rand_shape(rnd, 2, 0.0, (1, 2, 3), min_rank=1)
-        a, p_ = ops.tensor(rnd, d, sh, "small"), ops.tensor(rnd, d, sh, "small")
-        m = {"dtype": "bool", "shape": sh, "data": [rnd.random() < 0.5 for _ in range(ops.prod(sh))]}
-        form = rnd.choice(["x = a.copy(); x[0] = p[0]; out = [x, x + 1]", "x = a.copy(); x[...] = p; out = [x, ndx.sum(x)]",
-                           "x = a.copy(); x[m] = 0; out = [x, x * 2]", "x = a.copy(); y = x[...]; x[-1] = p[-1]; out = [x, y + 0]",
-                           "x = a.copy(); x[0] = p[0]; x[-1] = 7; out = [x + 0, x]"])
-        lazy = ["m"] if "[m]" in form else ["p"]
-        mixed.append({"id": f"WL-{i}", "inputs": {"a": a, "p": p_, "m": m}, "impl": form, "oracle": None, "tol": [0, 0],
-                      "meta": {"func": "setitem-mixed", "dtype": d, "dclass": family.dclass(d)},
-                      "lazy_subsets": [{"names": lazy}, {"names": lazy + ["a"]}]})
+    mixed = families.mixed_write_cases(rnd, 60 if ctx.tier == "quick" else 600)
     family.evaluate(ctx, mixed, want=("traced",))
     # alias table
     ac = alias_cases(rnd)
